@@ -41,9 +41,16 @@ pub struct ScOut {
   pub trace: Vec<(u8, String)>,
   pub site_hits: BTreeMap<String, u64>,
   pub error: Option<String>,
+  /// errors the consumer's calls returned while the scenario carried undecodable samples (each is a report, not a failure)
+  pub errors_reported: u64,
 }
 
 fn data_dgram(prefix: &[u8; 12], weid: [u8; 4], reid: [u8; 4], sn: i64, id: u32, with_hb: bool) -> Vec<u8> {
+  data_dgram_kind(prefix, weid, reid, sn, id, with_hb, false)
+}
+
+/// `undecodable`: the CDR body announces a 1000-byte blob and ends there
+fn data_dgram_kind(prefix: &[u8; 12], weid: [u8; 4], reid: [u8; 4], sn: i64, id: u32, with_hb: bool, undecodable: bool) -> Vec<u8> {
   // minimal little-endian RTPS: header, INFO_TS, DATA(VSample{key,id,blob[]}), optional HEARTBEAT
   let mut v = Vec::new();
   v.extend_from_slice(b"RTPS");
@@ -61,7 +68,7 @@ fn data_dgram(prefix: &[u8; 12], weid: [u8; 4], reid: [u8; 4], sn: i64, id: u32,
   body.extend_from_slice(&[0, 1, 0, 0]);
   body.extend_from_slice(&(id % 3).to_le_bytes());
   body.extend_from_slice(&id.to_le_bytes());
-  body.extend_from_slice(&0u32.to_le_bytes());
+  body.extend_from_slice(&(if undecodable { 1000u32 } else { 0 }).to_le_bytes());
   v.extend_from_slice(&[0x15, 0x05]);
   v.extend_from_slice(&(body.len() as u16).to_le_bytes());
   v.extend_from_slice(&body);
@@ -92,6 +99,14 @@ fn ids_of(v: &[super::rbench::Obs]) -> Vec<u32> {
 /// back by the reliable reader, and a stand-alone non-final HEARTBEAT whose first_sn lies past the hole (the writer
 /// cannot repair it any more) releases them; the reader answers that HEARTBEAT with an ACKNACK.
 pub fn run_reader_scenario(mech: Mech, reliable: bool, nsamples: usize, out_of_order: bool, lost_then_heartbeat: bool, schedule_seed: u64, pct_depth: usize) -> ScOut {
+  run_reader_scenario_bad(mech, reliable, nsamples, out_of_order, lost_then_heartbeat, 0, schedule_seed, pct_depth)
+}
+
+/// `bad_mask`: bit (sn - 1) set = sample sn arrives with an undecodable payload (C09): the consumer's call reports
+/// an error for it (counted in `errors_reported`) and goes on; `produced` lists the decodable ones only.
+#[allow(clippy::too_many_arguments)]
+pub fn run_reader_scenario_bad(mech: Mech, reliable: bool, nsamples: usize, out_of_order: bool, lost_then_heartbeat: bool, bad_mask: u64, schedule_seed: u64, pct_depth: usize) -> ScOut {
+  let is_bad = move |sn: i64| sn >= 1 && sn <= 64 && bad_mask >> (sn - 1) & 1 == 1;
   let sched = Sched::new(2);
   let (tx_cons, rx_cons) = mpsc::channel::<ConsumerSide>();
   let wguid = {
@@ -104,7 +119,8 @@ pub fn run_reader_scenario(mech: Mech, reliable: bool, nsamples: usize, out_of_o
     g
   };
   let lost: Option<i64> = if lost_then_heartbeat && reliable && nsamples >= 2 { Some(1 + (schedule_seed % (nsamples as u64 - 1)) as i64) } else { None };
-  let produced: Vec<u32> = (1..=nsamples as u32).filter(|id| Some(*id as i64) != lost).collect();
+  let produced: Vec<u32> = (1..=nsamples as u32).filter(|id| Some(*id as i64) != lost && !is_bad(*id as i64)).collect();
+  let errors_reported = Arc::new(AtomicU64::new(0));
   let parks = Arc::new(AtomicU64::new(0));
   let wakeups = Arc::new(AtomicU64::new(0));
 
@@ -132,7 +148,7 @@ pub fn run_reader_scenario(mech: Mech, reliable: bool, nsamples: usize, out_of_o
       if Some(sn) == lost {
         continue;
       }
-      let dg = data_dgram(&prefix, weid, reid, sn, sn as u32, false);
+      let dg = data_dgram_kind(&prefix, weid, reid, sn, sn as u32, false, is_bad(sn));
       prod.inject(&dg);
     }
     if let Some(l) = lost {
@@ -164,6 +180,7 @@ pub fn run_reader_scenario(mech: Mech, reliable: bool, nsamples: usize, out_of_o
   let s1 = sched.clone();
   let parks_c = parks.clone();
   let wakeups_c = wakeups.clone();
+  let errors_c = errors_reported.clone();
   let consumer = std::thread::spawn(move || -> (Vec<u32>, Vec<u32>, Option<String>) {
     let mut cons = rx_cons.recv().expect("consumer side");
     let mut delivered = vec![];
@@ -191,6 +208,10 @@ pub fn run_reader_scenario(mech: Mech, reliable: bool, nsamples: usize, out_of_o
               continue;
             }
             Ok(_) => {}
+            Err(_) if bad_mask != 0 => {
+              errors_c.fetch_add(1, Ordering::SeqCst);
+              continue;
+            }
             Err(e) => {
               error = Some(e);
               break;
@@ -209,9 +230,14 @@ pub fn run_reader_scenario(mech: Mech, reliable: bool, nsamples: usize, out_of_o
                 wakeups_c.fetch_add(1, Ordering::SeqCst);
                 break;
               }
+              let mut guard = 0;
               loop {
+                guard += 1;
                 match cons.op(&ReadOp::SimpleTakeOne) {
                   Ok(v) if !v.is_empty() => found_after.extend(ids_of(&v)),
+                  Err(_) if bad_mask != 0 && guard < 100 => {
+                    errors_c.fetch_add(1, Ordering::SeqCst);
+                  }
                   _ => break,
                 }
               }
@@ -225,6 +251,9 @@ pub fn run_reader_scenario(mech: Mech, reliable: bool, nsamples: usize, out_of_o
             match cons.op(&ReadOp::TakeNext) {
               Ok(v) if !v.is_empty() => delivered.extend(ids_of(&v)),
               Ok(_) => break,
+              Err(_) if bad_mask != 0 => {
+                errors_c.fetch_add(1, Ordering::SeqCst);
+              }
               Err(e) => {
                 error = Some(e);
                 break 'outer;
@@ -263,8 +292,15 @@ pub fn run_reader_scenario(mech: Mech, reliable: bool, nsamples: usize, out_of_o
                 wakeups_c.fetch_add(1, Ordering::SeqCst);
                 break;
               }
-              if let Ok(v) = cons.op(&ReadOp::Take { max: usize::MAX, not_read_only: false }) {
-                found_after.extend(ids_of(&v));
+              for _ in 0..100 {
+                match cons.op(&ReadOp::Take { max: usize::MAX, not_read_only: false }) {
+                  Ok(v) if v.is_empty() => break,
+                  Ok(v) => found_after.extend(ids_of(&v)),
+                  Err(_) if bad_mask != 0 => {
+                    errors_c.fetch_add(1, Ordering::SeqCst);
+                  }
+                  Err(_) => break,
+                }
               }
               break 'outer;
             }
@@ -294,6 +330,7 @@ pub fn run_reader_scenario(mech: Mech, reliable: bool, nsamples: usize, out_of_o
     trace: trace.into_iter().map(|(t, s)| (t, s.to_string())).collect(),
     site_hits: hits.into_iter().map(|(k, v)| (k.to_string(), v)).collect(),
     error,
+    errors_reported: errors_reported.load(Ordering::SeqCst),
   }
 }
 
